@@ -42,7 +42,7 @@ func (c *ViewRawCommand) Parse(fs *flag.FlagSet, args []string) error {
 	if c.SrcRelPath == "" {
 		return newRequiredOptionError(fs, "src")
 	}
-	if c.From > c.Until {
+	if c.Until != 0 && c.From > c.Until {
 		return errFromIsAfterUntil
 	}
 
